@@ -371,6 +371,17 @@ class _CallOutcome:
 
 def load_target(c: Contract):
     rebind = c.rebind() if callable(c.rebind) else dict(c.rebind or {})
+    if c.shadow_mode == "real":
+        # the normally imported function object itself (no rebinding, no rewriting)
+        import importlib
+
+        for extra in getattr(c, "imports", ()):
+            importlib.import_module(extra)
+        mod = importlib.import_module(c.module)
+        f = loader.real(c.module, c.qualname)
+        if c.unwrap:
+            f = loader.unwrap(f)
+        return mod, f
     if c.shadow_mode == "function":
         mod, fns = loader.shadow_functions(c.module, [c.qualname] + list(c.also), rebind, c.cuts)
         if c.stubs:
@@ -428,7 +439,11 @@ def verify(c: Contract, variant=None, deadline_s=600):
         return obs[n]
 
     is_lemma = c.module is None
-    info = {"contract": vname, "function": {"lemma": True} if is_lemma else loader.function_info(c.module, getattr(c, "source_qualname", None) or c.qualname), "paths": 0,
+    if c.shadow_mode == "real" and not is_lemma:
+        finfo = loader.function_info_real(c)
+    else:
+        finfo = {"lemma": True} if is_lemma else loader.function_info(c.module, getattr(c, "source_qualname", None) or c.qualname)
+    info = {"contract": vname, "function": finfo, "paths": 0,
             "normal_paths": 0, "exceptional_paths": 0, "front_end": "N+cut" if c.cuts else ("N+rebind" if c.rebind else "N")}
     if info["function"] is None:
         o = ob("target", "guard")
